@@ -62,6 +62,9 @@ impl Command {
             .cloned()
             .expect("`RunReadEvalLoop` should be in `env.any`");
         let system = env.system.clone();
+        // The guard closes the FD even if this future is dropped before the
+        // script finishes, so that the FD does not leak.
+        let _fd_guard = CloseOnDrop(system.clone(), fd);
         let ref_env = RefCell::new(&mut *env);
         let input = Box::new(Echo::new(FdReader2::new(fd, system), &ref_env));
         let mut config = Config::with_input(input);
@@ -71,11 +74,18 @@ impl Command {
         }));
         let divert = run_read_eval_loop.0(&ref_env, config).await;
 
-        _ = env.system.close(fd);
-
         let (exit_status, divert) = consume_return(divert);
         let exit_status = exit_status.unwrap_or(env.exit_status);
         crate::Result::with_exit_status_and_divert(exit_status, divert)
+    }
+}
+
+/// Guard that closes a file descriptor when dropped.
+struct CloseOnDrop<S: Close>(S, Fd);
+
+impl<S: Close> Drop for CloseOnDrop<S> {
+    fn drop(&mut self) {
+        _ = self.0.close(self.1);
     }
 }
 
